@@ -242,7 +242,7 @@ class Ctx:
 
     def corpus(self):
         if self._corpus is None:
-            d, rep = extract.corpus_facts("quick")
+            d, rep = extract.corpus_facts(self.tier if self.tier == "thorough" else "quick")
             self._corpus = (_load_cached(d), rep)
         return self._corpus
 
